@@ -158,6 +158,19 @@ def rowsClass (got : List Frag) (want : List Frag) : String :=
 
 def listSubset (a b : List Nat) : Bool := a.all (b.contains ·)
 
+/-- The start row the scanner computes for the region below boundary `b` of a reversed scan when
+`b` does not end in `0x00`: last byte lowered by one, then `rowPadding`. -/
+def paddedBelow (b : Bytes) : Option Bytes :=
+  match b.getLast? with
+  | none => none
+  | some l => if l = 0 then none else some (b.dropLast ++ [l - 1] ++ Gen.Wire.rowPadding)
+
+/-- `k` lies below a region boundary but above the padded start row computed for it. -/
+def abovePaddedStart (splits : List Bytes) (k : Bytes) : Bool :=
+  splits.any fun b => match paddedBelow b with
+    | some p => blt p k && blt k b
+    | none => false
+
 def fragStr (f : Frag) : String :=
   (if f.part then "1=" else "0=") ++
     String.intercalate "+" (f.cells.map fun c => toHex c.row ++ "." ++ toString c.q)
@@ -280,7 +293,18 @@ def judge (c : Case) : String :=
          | _, _ => false) then none   -- Close in the middle of a row: the buffered part of it is still delivered
     else some (rowsClass okRows (want.take okRows.length) ++ "-prefix")
   match rowsVerdict with
-  | some cls => s!"SPEC key=rows-{dir}-{mode}-{cls} want={(want.take 12).map fragStr} got={(okRows.take 16).map fragStr}"
+  | some cls =>
+    -- two inputs outside the hypotheses of `scan_exact` (`ScanHyps.keys`, `ScanHyps.revStart`), run
+    -- on the real scanner as the excluded points of a proof should be, get keys of their own
+    let missing := (keysOf want).filter fun k => !(keysOf okRows).contains k
+    let key :=
+      if sc.reversed && cls.startsWith "missing" && sc.start == [] && c.splits ≠ [] then
+        "rows-rev-missing-without-start-row"
+      else if sc.reversed && cls.startsWith "missing" && !missing.isEmpty &&
+          missing.all (abovePaddedStart c.splits) then
+        "rows-rev-missing-above-padded-region-start"
+      else s!"rows-{dir}-{mode}-{cls}"
+    s!"SPEC key={key} want={(want.take 12).map fragStr} got={(okRows.take 16).map fragStr}"
   | none =>
   -- (e) model = implementation
   match runOps sc c.ops false c.replies (St.init sc) with
